@@ -58,6 +58,9 @@ pub fn rule_alphabet() -> Vec<&'static str> {
         "p(X,X) :- in(X).",
         "{p(X,1)} :- q(X).",
         "r :- p(X,Y), X != Y.",
+        "q(X) :- p(X), in(X).",
+        "r :- not not r, q(1).",
+        "{r} :- p(X).",
     ]
 }
 
